@@ -502,9 +502,16 @@ impl<'a> World<'a> {
                     .map(|rd| rd.flatten().filter(|e| e.file_name().to_string_lossy().ends_with(".jnl")).count())
                     .unwrap_or(0);
                 self.st.inc("settle_journals");
+                let dbg: Vec<String> = self
+                    .ks
+                    .iter()
+                    .map(|(n, h)| format!("{n}: id={} sealed={} active_empty={} persisted={:?} deleted={}", h.ks.id(), h.ks.tree.sealed_memtable_count(), h.ks.tree.active_memtable().is_empty(), h.ks.tree.get_highest_persisted_seqno(), h.ks.verif_is_deleted()))
+                    .chain(self.stale.iter().map(|s| format!("STALE {}: id={} sealed={} active_empty={} persisted={:?} deleted={}", s.name, s.h.ks.id(), s.h.ks.tree.sealed_memtable_count(), s.h.ks.tree.active_memtable().is_empty(), s.h.ks.tree.get_highest_persisted_seqno(), s.h.ks.verif_is_deleted())))
+                    .collect();
+                let _ = &dbg;
                 ck!(
                     jc == 1 && on_disk == 1,
-                    "after every keyspace was rotated and flushed, journal_count() = {jc} and {on_disk} journal files are on disk (expected 1)"
+                    "after every keyspace was rotated and flushed, journal_count() = {jc} and {on_disk} journal files are on disk (expected 1) [{}]", dbg.join("; ")
                 );
             }
         }
